@@ -2,6 +2,8 @@
 
 package actionlint
 
+import "gopkg.in/yaml.v3"
+
 // C06 — making type information less precise never introduces a diagnostic.
 // One inductive step per typing rule: the operands are variables x, y whose
 // types are drawn from a family closed under the constructors up to depth 2;
@@ -225,4 +227,54 @@ func HarnessC06Template() {
 	}
 	verifReach("checked")
 	verifCheckf(len(rule.Errs()) == 0, "value-of-type-any-reported", verifErrTextConc(rule.Errs()))
+}
+
+// HarnessC06MatrixRow: a matrix row whose values are a mix of plain values and
+// one value of unknown type (a placeholder whose type is any), in every order:
+// whatever is done with matrix.<row> afterwards (property, index, filter,
+// function argument) is not reported — the row's type is unknown.
+func HarnessC06MatrixRow() {
+	s := yScalar
+	plain := func(k int) *yaml.Node {
+		switch k {
+		case 0:
+			return s("native")
+		case 1:
+			return yTagged("!!int", "3")
+		case 2:
+			return yMap(s("arch"), s("x"))
+		}
+		return ySeq(s("a"))
+	}
+	unknown := []string{"${{ fromJSON(github.sha) }}", "${{ github.event.x }}", "${{ fromJSON(needs.p.outputs.t) }}"}[verifChoose("unknown", 3)]
+	vals := []*yaml.Node{plain(verifChoose("plain0", 4))}
+	if verifChoose("two", 2) == 1 {
+		vals = append(vals, plain(verifChoose("plain1", 4)))
+	}
+	pos := verifChoose("position", len(vals)+1)
+	vals = append(vals[:pos:pos], append([]*yaml.Node{s(unknown)}, vals[pos:]...)...)
+	use := []string{"matrix.r.arch", "matrix.r[0]", "join(matrix.r.*.x, ',')", "matrix.r.a.b.c", "contains(matrix.r, 'x')", "matrix.r == 1", "format('{0}', matrix.r.arch.name)"}[verifChoose("use", 7)]
+	ref := s("echo ${{ " + use + " }}")
+	doc := yDoc(yMap(s("on"), s("push"), s("jobs"), yMap(
+		s("p"), yMap(s("runs-on"), s("ubuntu-latest"), s("outputs"), yMap(s("t"), s("v")), s("steps"), ySeq(yMap(s("run"), s("echo")))),
+		s("j"), yMap(s("needs"), ySeq(s("p")), s("runs-on"), s("ubuntu-latest"), s("strategy"), yMap(s("matrix"), yMap(s("r"), ySeq(vals...))), s("steps"), ySeq(yMap(s("run"), ref))),
+	)))
+	verifPlace(doc, 1, 0)
+	errs := verifLintNode(doc, verifExprRuleOnly())
+	verifReach("checked")
+	verifCheckf(verifErrOnLine(errs, ref) == 0, "value-of-unknown-type-reported", use+": "+verifErrTextConc(errs))
+}
+
+// HarnessC06InputDefault: the default of a typed workflow_call input given by a
+// placeholder whose type is any is accepted for every declared type.
+func HarnessC06InputDefault() {
+	s := yScalar
+	ty := []string{"boolean", "number", "string"}[verifChoose("type", 3)]
+	def := s([]string{"${{ fromJSON(vars.V) }}", "${{ github.event.repository.private }}", "${{ fromJSON('[]')[0] }}", "${{ vars.A || fromJSON(vars.B) }}"}[verifChoose("default", 4)])
+	doc := yDoc(yMap(s("on"), yMap(s("workflow_call"), yMap(s("inputs"), yMap(s("verbose"), yMap(s("type"), s(ty), s("default"), def)))),
+		s("jobs"), yMap(s("j"), yMap(s("runs-on"), s("ubuntu-latest"), s("steps"), ySeq(yMap(s("run"), s("echo ${{ inputs.verbose }}")))))))
+	verifPlace(doc, 1, 0)
+	errs := verifLintNode(doc, verifExprRuleOnly())
+	verifReach("checked")
+	verifCheckf(verifErrOnLine(errs, def) == 0, "value-of-unknown-type-reported", ty+": "+verifErrTextConc(errs))
 }
